@@ -52,6 +52,16 @@ def add_violation(res, case, what, sig=None):
     res['counters']['violations_raw'] += 1
 
 
+def saturated(res):
+    """the shard has already collected its full quota of violations: exploring further cannot change the verdict (under a badly broken
+    tree the space below every case may be orders of magnitude larger than on a correct one)"""
+    if len(res['violations']) >= MAX_VIOL_PER_SHARD:
+        if not any(n.startswith('shard stopped early') for n in res['notes']):
+            res['notes'].append(f'shard stopped early after {MAX_VIOL_PER_SHARD} violations')
+        return True
+    return False
+
+
 def add_sample(res, s):
     if len(res['samples']) < MAX_SAMPLES:
         res['samples'].append(s)
